@@ -30,6 +30,7 @@ def known(rep):
 
 def run(rep, tier, seed):
     flow.run_gen(rep, {'Arh', 'Steps'}, seed, 6 if tier == 'quick' else 60)
+    flow.run_selftest(rep, seed, 30 if tier == 'quick' else 300)
     flow.run_proofs(rep, PROOFS, extra_scan=['Tsv.Gen.Arh'])
     rng = random.Random(seed)
     fails, st = core.safe(osde.c10_search, rng, 60 if tier == 'quick' else 1500)
